@@ -200,6 +200,33 @@ CHECKS = {
                 "decide the interval bounds over trajectories (run properties).",
         "note": _BASE_NOTE + "The timing bounds themselves are declined; each rule is a necessary condition of them.",
     },
+    "C11": {
+        "technique": "static analysis: ASN.1 schema conformance of every dict/tuple literal and subscript store that flows into a "
+                     "CAM/VAM/DENM dictionary (type tree parsed from the repository's ASN.1 string constants), interval "
+                     "interpretation of the quantiser expressions with guard refinement, polynomial identity of unit scalings",
+        "text": "Decides the conditions under which the UPER encoder raises, wraps or silently drops a value, for the whole input box "
+                "of the quantifier at once: shape (dict / CHOICE pair / BIT STRING pair / enumerator), member and alternative "
+                "names, mandatory members of the white templates, INTEGER ranges reachable from the GNSS input ranges (clamps "
+                "and unavailable/outOfRange guards followed), the scaling coefficient of latitude/longitude/altitude/speed/"
+                "heading, and every subscript the readers apply to a decoded message. 8 known findings pinned by the suite "
+                "(cluster bounding-box CHOICE built as dict; three DENM management keys that are not members). Does NOT decide "
+                "bit-exact UPER output, truncation vs rounding, nor the reconstruction arithmetic of generationDeltaTime.",
+        "note": _BASE_NOTE + "asn1tools.parser is used as a parser of the ASN.1 text only (nothing is compiled, encoded or decoded); "
+                "parse results are cached by SHA-256 of the text under /verif/.cache (cold cache costs ~40 s). Input box: lat "
+                "+-90, lon +-180, altHAE -1000..10000 m, speed 0..200 m/s, track 0..360, epx/epy/epv 0..500, epd 0..360.",
+    },
+    "C17": {
+        "technique": "static analysis: provenance rules on the BTP request and LDM feed, counting-loop idiom recognition for the "
+                     "repetition schedule, identity provenance + critical-section rule for the action-id allocator",
+        "text": "Decides: every DENM is handed to BTP as a GeoBroadcast-circle request (port 2002, DENM profile, ITS-AID 37) whose "
+                "area centre is the eventPosition of the very dictionary that is encoded; the repetition loop has the form "
+                "`t = 0; while t < T: send; wait i; t += i` with one unconditional send before the wait, which yields ceil(T/i) "
+                "for every T and i; stationId / originatingStationId come from the vehicle data; the sequence number is drawn "
+                "once per event, outside the repetition loop, from manager state that advances by one under a lock; a received "
+                "DENM is decoded and stored with its own event position. Does NOT decide cadence as timing nor reference-time "
+                "monotonicity (clock).",
+        "note": _BASE_NOTE + "Loop forms other than the recognised ones are reported as ANALYSIS-ERROR, not guessed.",
+    },
     "C12": {
         "technique": "static analysis: transitive write-effect summaries over the resolved call graph (CHA), guard facts, "
                      "returns-none summaries, keyword-forwarding rules",
